@@ -1,21 +1,27 @@
 #!/bin/bash
 # run.sh <ID> <quick|thorough> [extra args]  — rebuilds the check for <ID> from /repo's
 # current working tree and runs it.  Exit status and stdout follow the MANIFEST contract.
+# VERIF_BUILD_ONLY=1: only build (used by the seed sweep); VERIF_BIN=<name>: name of the binary under .work/bin.
 set -u
 ID="$1"; TIER="${2:-quick}"; shift; shift || true
 cd /verif
 export GOFLAGS=-mod=mod GOPROXY=off GOSUMDB=off GOTOOLCHAIN=local
 lc=$(echo "$ID" | tr 'A-Z' 'a-z')
+BIN=".work/bin/${VERIF_BIN:-$lc}"
 mkdir -p .work/bin evidence replays
 if [ ! -f go.sum ] || ! cmp -s /repo/go.sum .work/repo.go.sum 2>/dev/null; then
   cat /repo/go.sum go.sum.extra 2>/dev/null | sort -u > go.sum; cp /repo/go.sum .work/repo.go.sum
 fi
+# the seed sweep (seeds_run.sh) holds this lock exclusively while a seeded change is applied to /repo
+exec 7> .work/repo.lock; [ -n "${VERIF_SEED_SWEEP:-}" ] || flock -s 7
 OVERLAY=()
 if [ -x "harness/$lc/prebuild.sh" ]; then
-  "harness/$lc/prebuild.sh" > .work/prebuild-$lc.log 2>&1 || { echo "BUILD-FAILED property=$ID (prebuild; see .work/prebuild-$lc.log)"; tail -20 .work/prebuild-$lc.log; exit 2; }
+  ( flock 9; "harness/$lc/prebuild.sh" > .work/prebuild-$lc.log 2>&1 ) 9> .work/prebuild-$lc.lock || { echo "BUILD-FAILED property=$ID (prebuild; see .work/prebuild-$lc.log)"; tail -20 .work/prebuild-$lc.log; exit 2; }
   OVERLAY=(-overlay "/verif/.work/$lc/overlay.json")
 fi
-if ! go build -tags verif "${OVERLAY[@]}" -o ".work/bin/$lc" "./harness/$lc/" 2> ".work/build-$lc.log"; then
+if ! go build -tags verif "${OVERLAY[@]}" -o "$BIN" "./harness/$lc/" 2> ".work/build-$lc.log"; then
   echo "BUILD-FAILED property=$ID"; tail -30 ".work/build-$lc.log"; exit 2
 fi
-exec ".work/bin/$lc" --tier "$TIER" "$@"
+flock -u 7
+[ -n "${VERIF_BUILD_ONLY:-}" ] && exit 0
+exec "$BIN" --tier "$TIER" "$@"
